@@ -3,7 +3,7 @@
    abstract token kind (the two packages number their tokens differently). *)
 From Coq Require Import List NArith ZArith Bool.
 Import ListNotations.
-From V Require Import Base.Prelude Gen.ScanTok Model.Scan Model.ScanRel Proofs.ScanTpl Proofs.ScanTplEq.
+From V Require Import Base.Prelude Gen.ScanTok Model.Scan Model.ScanRel Proofs.ScanTpl Proofs.ScanTplEq Gen.ScanConst Proofs.ScanConst.
 Open Scope Z_scope.
 
 (* tpl_eq_xgo_on_shared.  [shared ul ud cm src] (Model/ScanRel.v) runs the XGo dialect and checks
@@ -58,6 +58,34 @@ Example C32_not_shared_examples : forall ul ud,
   /\ shared ul ud true w_sharp_star = false /\ shared ul ud true w_block_cr = false.
 Proof. intros ul ud. repeat split; vm_compute; reflexivity. Qed.
 
+(* K-gen: the numeric comparisons of tpl/scanner/scanner.go, translated from the source on every run
+   (Gen/ScanConst.v), are those of the model - for all values; a changed bound or operator in lower /
+   isDecimal / isHex / digitVal / isLetter / isDigit / skipWhitespace / scanEscape breaks this theorem *)
+Theorem C32_source_constants : forall ul ud,
+  (forall c, tpl_sc_lower c = lower c) /\ (forall c, tpl_sc_isDecimal c = is_decimal c)
+  /\ (forall c, tpl_sc_isHex c = is_hex c) /\ (forall c, tpl_sc_digitVal c = digit_val c)
+  /\ (forall c, tpl_sc_isLetter ul ud c = is_letter ul c) /\ (forall c, tpl_sc_isDigit ul ud c = is_digit ud c)
+  /\ (forall semi c, tpl_sc_skipCond semi c = is_blank_rune semi c)
+  /\ (forall mx x, tpl_sc_escInvalid mx x = esc_invalid mx x)
+  /\ (forall q c, existsb (Z.eqb c) tpl_sc_escSimple || (c =? q) = esc_simple q c)
+  /\ (forall c, zassoc c tpl_sc_escNumeric = esc_numeric c)
+  /\ tpl_sc_bom = bom.
+Proof.
+  intros ul ud.
+  split; [intros; apply tpl_lower|].
+  split; [intros; apply tpl_isDecimal|].
+  split; [intros; apply tpl_isHex|].
+  split; [intros; apply tpl_digitVal|].
+  split; [intros; apply tpl_isLetter|].
+  split; [intros; apply tpl_isDigit|].
+  split; [intros; apply tpl_skipCond|].
+  split; [intros; apply tpl_escInvalid|].
+  split; [intros; apply tpl_escSimple|].
+  split; [intros; apply tpl_escNumeric|].
+  apply tpl_bom.
+Qed.
+
+Print Assumptions C32_source_constants.
 Print Assumptions C32_tpl_eq_xgo_on_shared.
 Print Assumptions C32_step_tpl_eq_xgo.
 Print Assumptions C32_spellings_agree.
